@@ -33,12 +33,8 @@ type vfT struct {
 }
 
 func (t *vfT) note(args []interface{}) {
-	if t.first == "" && len(args) > 0 {
-		if s, ok := args[0].(string); ok {
-			t.first = s
-		} else {
-			t.first = "(non-string operand)"
-		}
+	if t.first == "" {
+		t.first = "(message built by the test)" // the text itself may hold line breaks: not part of the label
 	}
 }
 func (t *vfT) notef(f string) {
@@ -184,7 +180,10 @@ def main():
         one = os.path.join(out, 'h_' + p.replace('/', '_'))
         os.makedirs(one)
         shutil.copy(os.path.join(hdir, 'vflib.go.txt'), one)
-        shutil.copytree(os.path.join(hdir, p), os.path.join(one, p))
+        os.makedirs(os.path.join(one, p))
+        for f in os.listdir(os.path.join(hdir, p)):  # files only: sub-packages have their own run
+            if os.path.isfile(os.path.join(hdir, p, f)):
+                shutil.copy(os.path.join(hdir, p, f), os.path.join(one, p, f))
         cmd = [os.environ.get('GOSX_BIN', os.path.join(VERIF, 'bin/gosx')), 'run', '--property', 'SELF', '--tier', 'quick',
                '--harness', one, '--repo', repo, '--budget', '120s', '--known', os.path.join(VERIF, 'known_findings.json'),
                '--evidence', os.path.join(out, 'ev.json'), '--replay-dir', os.path.join(out, 'replay')]
@@ -195,6 +194,7 @@ def main():
             pr = subprocess.run(cmd, env=env, stdout=subprocess.PIPE, stderr=subprocess.STDOUT, text=True, errors='replace')
             bad = set(re.findall(r'zz_vf_(self_\w+\.go):\d+', pr.stdout)) if 'load error' in pr.stdout else set()
             bad -= {'self_entries.go', 'self_shim.go'}
+            bad = {b for b in bad if os.path.exists(os.path.join(one, p, b))}
             if not bad:
                 # errors reported only against the entry file: a test whose file was dropped
                 break
